@@ -329,6 +329,80 @@ fn resolvers_for(cause: Cause) -> Vec<Resolver> {
     }
 }
 
+/// "Every call resolves, provided user handlers themselves terminate" - also when the handler
+/// needs the service registry (it looks another service up) while somebody else is busy with the
+/// registry entry of the very actor that is running it (`which`: 0 register a second instance,
+/// 1 replace with one, 2 setup, 3 already_running, 4 unregister).
+struct RegistryBusy {
+    which: u8,
+}
+
+impl crate::check::Scene for RegistryBusy {
+    fn roles(&self) -> Vec<RoleCfg> {
+        // role 0: the registered service; its handler of message 700 looks service Probe<1> up
+        let r0 = RoleCfg { msg_actions: vec![(700, Action::LookupService { k: 1 })], ..RoleCfg::default() };
+        vec![r0, RoleCfg::default(), RoleCfg::default()]
+    }
+    fn pre(&self) {
+        use futures::FutureExt as _;
+        let _ = hannibal::Addr::<crate::world::Probe<0>>::unregister().now_or_never();
+        let _ = hannibal::Addr::<crate::world::Probe<1>>::unregister().now_or_never();
+    }
+    fn setup(&self, exec: &crate::vexec::Exec) {
+        use crate::world::{log, Ask, Ev, Probe};
+        use hannibal::prelude::*;
+        crate::world::W.with(|w| {
+            let mut w = w.borrow_mut();
+            w.default_role[0] = 2;
+            w.default_role[1] = 1;
+        });
+        let which = self.which;
+        let (tx, rx) = futures::channel::oneshot::channel::<hannibal::Addr<Probe<0>>>();
+        // the caller: its call makes the service look another service up from its handler
+        exec.spawn_client(1, async move {
+            let Ok(a2) = rx.await else { return };
+            log(Ev::Begin { c: 1, i: 0 });
+            let r = a2.call(Ask(700)).await;
+            log(Ev::End { c: 1, i: 0, r: if r.is_ok() { Res::Ok } else { Res::Err(crate::world::ErrKind::Send) } });
+        });
+        exec.spawn_client(0, async move {
+            log(Ev::Begin { c: 0, i: 0 });
+            let a = Probe::<0>::new(0).spawn();
+            let registered = a.clone().register().await.is_ok();
+            log(Ev::End { c: 0, i: 0, r: Res::Bool(registered) });
+            let _ = tx.send(a.clone());
+            log(Ev::Begin { c: 0, i: 1 });
+            let r = match which {
+                0 => Res::Bool(Probe::<0>::new(2).spawn().register().await.is_ok()),
+                1 => Res::Bool(Probe::<0>::new(2).spawn().replace().await.is_some()),
+                2 => Res::Bool(Probe::<0>::setup().await.is_ok()),
+                3 => Res::OptBool(Probe::<0>::already_running().await),
+                _ => Res::Bool(hannibal::Addr::<Probe<0>>::unregister().await.is_some()),
+            };
+            log(Ev::End { c: 0, i: 1, r });
+            log(Ev::Begin { c: 0, i: 2 });
+            crate::world::sleep(3).await;
+            drop(a);
+            log(Ev::End { c: 0, i: 2, r: Res::Ok });
+        });
+    }
+    fn check(&self, t: &Trace) -> Vec<Violation> {
+        let an = An::new(t.log);
+        let mut out = vec![];
+        crate::check::oblige("resolves-after-termination");
+        for o in &an.ops {
+            if o.end.is_none() {
+                out.push(Violation {
+                    clause: "resolves-after-termination",
+                    key: format!("C02/hang/registry-busy/op={}.{}/which={}", o.c, o.i, self.which),
+                    detail: format!("client {} op {} never resolved: the service's handler looks another service up while another task works on the service's own registry entry", o.c, o.i),
+                });
+            }
+        }
+        out
+    }
+}
+
 fn plain_cases(tier: Tier) -> Vec<Case> {
     let mut v = vec![];
     let first0 = [L::CallAddr, L::CallCal, L::CallWCal, L::CallOwn];
@@ -441,6 +515,15 @@ fn cases(tier: Tier) -> Vec<Case> {
         c.exec.select_choice = false;
         c
     }));
+    // handlers that need the registry while the registry is busy with their own actor
+    for which in 0..5u8 {
+        v.push(Case {
+            desc: format!("resolve [the handler looks a service up while the registry is busy with its actor] which={which}"),
+            exec: ExecCfg { horizon: 20, yield_holding_lock: true, ..ExecCfg::default() },
+            bound: None,
+            scene: Box::new(RegistryBusy { which }),
+        });
+    }
     // "every call and ping resolves" behind an attached stream that is ready every time the loop
     // looks: the mailbox must get its turn (set-valued, shared with C13)
     v.extend(crate::props::c13::fair_cases("C02"));
